@@ -9,6 +9,7 @@ import (
 	"bytes"
 	"fmt"
 	"io"
+	"strings"
 
 	"github.com/tink-crypto/tink-go/v2/insecurecleartextkeyset"
 	"github.com/tink-crypto/tink-go/v2/internal/verifharness/hlib"
@@ -35,6 +36,25 @@ func errS(err error) string {
 }
 
 func hx(b []byte) string { return hlib.Tok(b) }
+
+// opensUnder: verdict of a randomized encryption / signature through the pristine partner. The output must open
+// under the inputs that were passed (a copy taken before the call); when those are not the original inputs of the
+// scenario (same-buffer reuse observation) it is also tried under the original ones, so that an output bound to
+// stale inputs shows. "" = fine.
+func opensUnder(opens func(a, b []byte) bool, ga, gb, oa, ob []byte) string {
+	given := opens(ga, gb)
+	if bytes.Equal(ga, oa) && bytes.Equal(gb, ob) {
+		if given {
+			return ""
+		}
+		return "wrong-ciphertext"
+	}
+	orig := opens(oa, ob)
+	if given && !orig {
+		return ""
+	}
+	return fmt.Sprintf("wrong-ciphertext(opens-under-the-passed-inputs=%v,under-the-original-inputs=%v)", given, orig)
+}
 
 func cl(b []byte) []byte { return bytes.Clone(b) }
 
@@ -262,7 +282,7 @@ func (e *engine) primOps(src primSrc, rng *hlib.Rng) {
 		}
 	}
 	run := func(op string, det bool, ins []in1, call func(p any, ins [][]byte) ([][]byte, string)) {
-		sp := spec{api: src.api + "/" + op, extra: src.extra, ins: ins, det: det, mk: mkInst(call), lays: src.lays, once: src.minimal}
+		sp := spec{api: src.api + "/" + op, extra: src.extra, ins: ins, det: det, mk: mkInst(call), lays: src.lays, once: src.minimal, noReuse: src.minimal}
 		if src.rndCT && len(ins) > 0 && ins[0].name == "ciphertext" {
 			sp.rndIn = map[int]bool{0: true}
 		}
@@ -280,10 +300,14 @@ func (e *engine) primOps(src primSrc, rng *hlib.Rng) {
 		case "aead":
 			Q := src.q.(tink.AEAD)
 			run("Encrypt", false, []in1{{"plaintext", pt}, {"associatedData", ad}}, func(p any, ins [][]byte) ([][]byte, string) {
+				gpt, gad := cl(ins[0]), cl(ins[1])
 				ct, err := p.(tink.AEAD).Encrypt(ins[0], ins[1])
 				if err == nil {
-					if d, err2 := Q.Decrypt(cl(ct), cl(ad)); err2 != nil || !bytes.Equal(d, pt) {
-						return [][]byte{ct}, "wrong-ciphertext"
+					if w := opensUnder(func(pt, ad []byte) bool {
+						d, err2 := Q.Decrypt(cl(ct), cl(ad))
+						return err2 == nil && bytes.Equal(d, pt)
+					}, gpt, gad, pt, ad); w != "" {
+						return [][]byte{ct}, w
 					}
 				}
 				return out1(ct, err)
@@ -336,9 +360,12 @@ func (e *engine) primOps(src primSrc, rng *hlib.Rng) {
 		case "signer":
 			Q := src.q.(tink.Verifier)
 			run("Sign", false, []in1{{"data", pt}}, func(p any, ins [][]byte) ([][]byte, string) {
+				gd := cl(ins[0])
 				sig, err := p.(tink.Signer).Sign(ins[0])
-				if err == nil && Q.Verify(cl(sig), cl(pt)) != nil {
-					return [][]byte{sig}, "wrong-signature"
+				if err == nil {
+					if w := opensUnder(func(d, _ []byte) bool { return Q.Verify(cl(sig), cl(d)) == nil }, gd, nil, pt, nil); w != "" {
+						return [][]byte{sig}, "wrong-signature" + strings.TrimPrefix(w, "wrong-ciphertext")
+					}
 				}
 				return out1(sig, err)
 			})
@@ -361,10 +388,14 @@ func (e *engine) primOps(src primSrc, rng *hlib.Rng) {
 		case "hybenc":
 			Q := src.q.(tink.HybridDecrypt)
 			run("Encrypt", false, []in1{{"plaintext", pt}, {"contextInfo", ad}}, func(p any, ins [][]byte) ([][]byte, string) {
+				gpt, gad := cl(ins[0]), cl(ins[1])
 				ct, err := p.(tink.HybridEncrypt).Encrypt(ins[0], ins[1])
 				if err == nil {
-					if d, err2 := Q.Decrypt(cl(ct), cl(ad)); err2 != nil || !bytes.Equal(d, pt) {
-						return [][]byte{ct}, "wrong-ciphertext"
+					if w := opensUnder(func(pt, ad []byte) bool {
+						d, err2 := Q.Decrypt(cl(ct), cl(ad))
+						return err2 == nil && bytes.Equal(d, pt)
+					}, gpt, gad, pt, ad); w != "" {
+						return [][]byte{ct}, w
 					}
 				}
 				return out1(ct, err)
